@@ -497,6 +497,15 @@ func c01Clone(c *Ctx, a *avlAnchors) {
 		p := ps[0]
 		var local *Term
 		walked := false
+		nWalks := 0
+		for i := range p.Events {
+			if e := &p.Events[i]; e.Kind == "call" && strings.HasPrefix(e.Name, "avl.(*Tree).Walk") {
+				nWalks++
+			}
+		}
+		if nWalks > 1 {
+			ok, why = false, fmt.Sprintf("the receiver is walked %d times: every value is inserted into the clone more than once", nWalks)
+		}
 		for i := range p.Events {
 			e := &p.Events[i]
 			switch {
